@@ -4,10 +4,10 @@ import os
 import re
 import sys
 sys.path.insert(0, os.path.dirname(os.path.dirname(os.path.abspath(__file__))))
-from props.common import main, Run, run_child  # noqa: E402
+from props.common import main, Run, run_child, ALL_SIDECARS  # noqa: E402
 from pyvc.calls import Contract  # noqa: E402
 
-SIDE = ("severity", "externals", "pickled_api", "interp", "interp_run", "pickled_inv")
+SIDE = ALL_SIDECARS
 OWN = ["fickle.Pickled.__init__", "fickle.Pickled.__len__", "fickle.Pickled.__iter__", "fickle.Pickled.__getitem__", "fickle.Pickled.insert",
        "fickle.Pickled.__setitem__", "fickle.Pickled.__delitem__", "fickle.Pickled.nb_opcodes", "fickle.Pickled.opcodes",
        "fickle.Opcode.has_data", "fickle.Opcode.data", "fickle.Pickled.dumps", "fickle.Pickled.dump", "fickle.Pickled.ast",
